@@ -193,7 +193,10 @@ impl Resolver<'_, RouteSet, PrefixSet<Any>> for RpslEvaluator {
 
     #[tracing::instrument(skip(self), level = "debug")]
     fn resolve(&mut self, route_set: &RouteSet) -> Result<PrefixSet<Any>, Self::IError> {
-        self.with_connection(|this, conn| {
+        // Members may carry a range operator (e.g. `192.0.2.0/24^25-32`), so they cannot be
+        // parsed as `Prefix<Any>`: collect them as text and evaluate each one as a literal
+        // prefix-set, which applies the operator.
+        let members: Vec<String> = self.with_connection(|this, conn| {
             conn.pipeline()
                 // TODO: shouldn't need to clone here
                 .push(Query::RouteSetMembersRecursive(route_set.clone()))
@@ -201,11 +204,22 @@ impl Resolver<'_, RouteSet, PrefixSet<Any>> for RpslEvaluator {
                 .and_then(|pipeline| {
                     this.collect_results(
                         pipeline
-                            .responses::<'_, Prefix<Any>>()
+                            .responses::<'_, String>()
                             .map(|response| response.map(ResponseItem::into_content)),
                     )
                 })
-        })
+        })?;
+        let mut set = PrefixSet::<Any>::default();
+        for member in members {
+            let result = format!("{{{member}}}")
+                .parse::<MpFilterExpr>()
+                .map_err(Error::from)
+                .and_then(|expr| <Self as Evaluator>::evaluate(self, expr));
+            if let Some(ranges) = self.collect_result::<_, _, Error>(result)? {
+                set = set | ranges;
+            }
+        }
+        Ok(set)
     }
 }
 
